@@ -278,9 +278,15 @@ func (vt *v2T) scenC03() {
 					sub = append(sub, d)
 				}
 			}
-		} else if !vt.thorough() && thr != 0.8 {
+		} else if thr != 0.8 && (!vt.thorough() || thr < 0.7) {
+			// every barely similar document is diffed (go-diff gives up after a second each): the lower the threshold, the
+			// smaller the corpus -- also in the thorough tier, or one call takes minutes on a loaded machine
+			n := 60
+			if vt.thorough() {
+				n = 150
+			}
 			sub = nil
-			for _, i := range vt.sample(len(docs), 60) {
+			for _, i := range vt.sample(len(docs), n) {
 				sub = append(sub, docs[i])
 			}
 		}
